@@ -107,6 +107,95 @@ def step (st : St) (line : String) : St × String :=
         if out = m then ({ fabrics := fs }, "ok") else ({ fabrics := fs }, s!"DIS {m}")
       | none => if out = "err" then (st, "ok") else (st, "DIS err")
     | _, _ => (st, "BAD gaux")
+  | ["acli", fab, pb, mode, subjects, targets] =>
+    match fab.toNat?, pb.toNat?, modeOf mode with
+    | some fab, some pb, some (some mode) =>
+      match buildEntry pb mode subjects targets with
+      | none => (st, "BAD entry")
+      | some none => if out = "err" then (st, "ok") else (st, "DIS err")
+      | some (some e) =>
+        let r : Option (List Fabric × Nat) :=
+          if fab = 0 ∨ fab > 255 then none else fabricsAclAddInit st.fabrics fab e
+        match r with
+        | some (fs, i) => if out = toString i then ({ fabrics := fs }, "ok") else ({ fabrics := fs }, s!"DIS {i}")
+        | none => if out = "err" then (st, "ok") else (st, "DIS err")
+    | _, _, _ => (st, "BAD acli")
+  | [which, fab, idx, pb, mode, subjects, targets] =>
+    if which ≠ "aclupd" ∧ which ≠ "aclupi" then (st, "BAD op") else
+    match fab.toNat?, idx.toNat?, pb.toNat?, modeOf mode with
+    | some fab, some idx, some pb, some (some mode) =>
+      match buildEntry pb mode subjects targets with
+      | none => (st, "BAD entry")
+      | some none => if out = "err" then (st, "ok") else (st, "DIS err")
+      | some (some e) =>
+        let r : Option (List Fabric) :=
+          if fab = 0 ∨ fab > 255 then none else fabricsAclUpdate st.fabrics fab idx e
+        match r with
+        | some fs => if out = "ok" then ({ fabrics := fs }, "ok") else ({ fabrics := fs }, "DIS ok")
+        | none => if out = "err" then (st, "ok") else (st, "DIS err")
+    | _, _, _, _ => (st, "BAD aclupd")
+  | ["aclrm", fab, idx] =>
+    match fab.toNat?, idx.toNat? with
+    | some fab, some idx =>
+      let r : Option (List Fabric) := if fab = 0 ∨ fab > 255 then none else fabricsAclRemove st.fabrics fab idx
+      match r with
+      | some fs => if out = "ok" then ({ fabrics := fs }, "ok") else ({ fabrics := fs }, "DIS ok")
+      | none => if out = "err" then (st, "ok") else (st, "DIS err")
+    | _, _ => (st, "BAD aclrm")
+  | ["aclclr", fab] =>
+    match fab.toNat? with
+    | some fab =>
+      let r : Option (List Fabric) := if fab = 0 ∨ fab > 255 then none else fabricsAclRemoveAll st.fabrics fab
+      match r with
+      | some fs => if out = "ok" then ({ fabrics := fs }, "ok") else ({ fabrics := fs }, "DIS ok")
+      | none => if out = "err" then (st, "ok") else (st, "DIS err")
+    | none => (st, "BAD aclclr")
+  | ["grprm", fab, ep, gid] =>
+    let gidO : Option (Option Nat) := if gid = "*" then some none else gid.toNat?.map some
+    match fab.toNat?, ep.toNat?, gidO with
+    | some fab, some ep, some gidO =>
+      let gbad : Bool := match gidO with | some g => decide (g > 65535) | none => false
+      let ok : Bool := !(decide (fab = 0) || decide (fab > 255) || decide (ep > 65535) || gbad)
+      match (if ok then fabricsGet st.fabrics fab else none) with
+      | none => if out = "err" then (st, "ok") else (st, "DIS err")
+      | some f =>
+        let r := groupsRemove f.groups ep gidO
+        let fs := (fabricsGroupsMutate st.fabrics fab (fun gs => (groupsRemove gs ep gidO).1)).getD st.fabrics
+        let m := if r.2 then "yes" else "no"
+        if out = m then ({ fabrics := fs }, "ok") else ({ fabrics := fs }, s!"DIS {m}")
+    | _, _, _ => (st, "BAD grprm")
+  | ["gjoin", fab, gid, eps, replace] =>
+    let epsO : Option (List Nat) :=
+      if eps = "-" then some [] else (eps.splitOn ",").foldr (fun x acc => match x.toNat?, acc with
+        | some v, some l => some (v :: l) | _, _ => none) (some [])
+    match fab.toNat?, gid.toNat?, epsO with
+    | some fab, some gid, some epsL =>
+      let ok : Bool := !(decide (fab = 0) || decide (fab > 255) || decide (gid > 65535) || epsL.any (fun x => decide (x > 65535)))
+      match (if ok then fabricsGet st.fabrics fab else none) with
+      | none => if out = "err" then (st, "ok") else (st, "DIS err")
+      | some f =>
+        let r := groupsGroupcastJoin f.groups gid epsL (replace = "1")
+        let fs := (fabricsGroupsMutate st.fabrics fab (fun gs => (groupsGroupcastJoin gs gid epsL (replace = "1")).1)).getD st.fabrics
+        let m := if r.2 then "ok" else "fail"
+        if out = m then ({ fabrics := fs }, "ok") else ({ fabrics := fs }, s!"DIS {m}")
+    | _, _, _ => (st, "BAD gjoin")
+  | ["gleave", fab, gid] =>
+    match fab.toNat?, gid.toNat? with
+    | some fab, some gid =>
+      let ok : Bool := !(decide (fab = 0) || decide (fab > 255) || decide (gid > 65535))
+      match (if ok then fabricsGet st.fabrics fab else none) with
+      | none => if out = "err" then (st, "ok") else (st, "DIS err")
+      | some f =>
+        let fs := (fabricsGroupsMutate st.fabrics fab (fun gs => groupsGroupcastRemove gs gid)).getD st.fabrics
+        let m := if f.groups.any (fun e => e.groupId == gid) then "yes" else "no"
+        if out = m then ({ fabrics := fs }, "ok") else ({ fabrics := fs }, s!"DIS {m}")
+    | _, _ => (st, "BAD gleave")
+  | ["reload"] =>
+    -- only meaningful for tables with the five privileges the Interaction Model can produce (the TLV
+    -- encoding of a raw bit pattern is lossy / panics on the empty one): not a production state
+    if st.fabrics.all (fun f => f.acl.all (fun e => canonicalPriv e.privilege)) then
+      ({ fabrics := fabricsReload st.fabrics }, if out = "ok" then "ok" else "DIS ok")
+    else (st, "BAD reload of a table with non-canonical privileges")
   | ["q", fab, mode, aux, id, cats, ep, cl, leaf, opb, perms, dts] =>
     match fab.toNat?, modeOf mode, id.toNat?, natList cats, optNum ep, optNum cl, optNum leaf,
         opb.toNat?, (if perms = "none" then some none else perms.toNat?.map some), natList dts with
